@@ -856,7 +856,7 @@ theorem other_tasks_run_partial (cs : List (Callee × Bool)) (g : G) (hrun : GRu
 /-- the witness: two concurrent invocations of ordinary returning callees; the child of invocation 0 has sent its result and
     lingers (its exit step is withheld), everything else has moved as far as it can -/
 def lingerCs : List (Callee × Bool) := [(.ret 0, false), (.ret 1, false)]
-def lingerSc : List Sched := [⟨1, none⟩, ⟨3, none⟩]
+def lingerSc : List Sched := [⟨1, none, []⟩, ⟨3, none, []⟩]
 def blockG : G := scheduleH [0] prog lingerSc 200 [1, 3] (G.init lingerCs)
 
 /-- **negation witness for the full clause — `process.join()` blocks the event loop while the child lingers.**  A reachable
@@ -1096,12 +1096,53 @@ theorem step_touches_one_invocation (cs : List (Callee × Bool)) (g g' : G) (hru
     through non-locals, non-constant defaults, caching decorators).  Generated from the module's source on every run. -/
 theorem no_state_between_invocations :
     PedVerif.Gen.SubprocModule.moduleState = [] ∧ PedVerif.Gen.SubprocModule.bodyGuards = [] ∧
-    PedVerif.Gen.SubprocModule.sharedStores = [] := by decide
+    PedVerif.Gen.SubprocModule.sharedStores = [] ∧ PedVerif.Gen.SubprocModule.sharedExecutors = [] := by decide
+
+/-- **the write end belongs to the invocation's own child only**: between `Pipe()` and the parent's `tx.close()` the coroutine is never
+    suspended, so no other invocation can fork a child while this invocation's write end is open in the parent — what the model's
+    `start` (the write end is copied to the child of the SAME invocation) and the EOF argument of `local_ok` rest on.  Generated from the
+    source on every run. -/
+theorem no_await_while_write_end_open : PedVerif.Gen.SubprocModule.awaitsWhileWriteEndOpen = [] := by decide
+
+/-- **an invocation never waits for another invocation**: a step of the system either leaves invocation `i` exactly as it was or is a
+    step of `i` itself, which strictly decreases `i`'s own rank — and while `i` is pending it always has an enabled step of its own
+    (`terminates_and_releases_rounds`, clause 2).  So `i` ends after at most `rank progRank St.init` steps of its own, whatever the other
+    invocations do: also when their callees never end, or end only after `i` has (a callee that waits for an event the caller sets when
+    `i` has handed over its result), in every event loop. -/
+theorem progress_independent_of_siblings (cs : List (Callee × Bool)) (g g' : G) (hrun : MRun cs g) (hs : GStep prog g g')
+    (i : Nat) (l : Loc) (hi : g.invs[i]? = some l) :
+    (∃ l', g'.invs[i]? = some l' ∧ (l' = l ∨ rank progRank l'.st < rank progRank l.st)) ∧
+    (l.st.final = false → ∃ g'', StepOf i g g'') := by
+  have hwf := wf_mrun hrun
+  refine ⟨?_, fun hnf => progress_of hwf hi hnf⟩
+  obtain ⟨k, lk, lk', hk, hset, _, _, hn⟩ := gstep_local hwf hs
+  by_cases hki : k = i
+  · subst hki
+    rw [hi] at hk; cases hk
+    refine ⟨lk', by rw [hset, get_set lk' hi k]; simp, Or.inr ?_⟩
+    exact local_rank (hwf.reach k l hi) hn
+  · exact ⟨l, by rw [hset, get_set lk' hk i]; simp [hki, hi], Or.inl rfl⟩
+
+/-- non-vacuity, and the scenario the gated callees of the correspondence check run: invocation 1's child dies without a result
+    (`os._exit`); the callees of invocations 0, 2, 3 end only after invocation 1 has finished (`gate := [1]`).  Scheduled with the gates
+    respected, invocation 1 raises ChildProcessError, then the others return their own values; nothing is left. -/
+def gatedCs : List (Callee × Bool) := [(.ret 0, false), (.hardDeath .osExit, false), (.raiseExc 2, false), (.ret 3, true)]
+def gatedSc : List Sched := [⟨0, none, [1]⟩, ⟨0, none, []⟩, ⟨0, none, [1]⟩, ⟨1, none, [1]⟩]
+def gatedG : G := schedule prog gatedSc 400 [0, 0, 0, 1] (G.init gatedCs)
+/-- the state in which the gated callees are still waiting: invocation 1 has finished, none of the others has -/
+def gatedMidG : G := schedule prog gatedSc 4 [0, 0, 0, 1] (G.init gatedCs)
+
+example : GRun prog (G.init gatedCs) gatedG := schedule_run _ _ _ _ _
+example : gatedG.invs.map (fun l => l.st.out) = [some .retOk, some .raisedCPE, some .raisedCallee, some .retOk] ∧ gatedG.tbl = [] ∧
+    gatedG.invs.all (fun l => l.st.released) = true := by decide +kernel
+example : GRun prog (G.init gatedCs) gatedMidG := schedule_run _ _ _ _ _
+example : gatedMidG.invs.map (fun l => (l.st.out, l.st.cpc)) =
+    [(none, .running), (some .raisedCPE, .exited), (none, .running), (none, .running)] := by decide +kernel
 
 /-- non-vacuity: three event loops, in each more invocations than the first had, every kind of callee; scheduled to the end -/
 def roundsCs1 : List (Callee × Bool) := [(.ret 0, false), (.raiseExc 1, false)]
 def roundsCs2 : List (Callee × Bool) := [(.hardDeath .signal, false), (.ret 3, true), (.ret 4, false)]
-def roundsSc : List Sched := [⟨1, none⟩, ⟨1, none⟩, ⟨1, none⟩, ⟨2, none⟩, ⟨0, some 3⟩]
+def roundsSc : List Sched := [⟨1, none, []⟩, ⟨1, none, []⟩, ⟨1, none, []⟩, ⟨2, none, []⟩, ⟨0, some 3, []⟩]
 def roundsG1 : G := schedule prog roundsSc 400 [1, 1, 1, 2, 0] (G.newLoop (G.init []) roundsCs1)
 def roundsG2 : G := schedule prog roundsSc 400 [1, 1, 1, 2, 0] (G.newLoop roundsG1 roundsCs2)
 
@@ -1136,8 +1177,8 @@ def oldRank : List Nat := [12, 11, 10, 9, 8, 7, 6, 5, 4, 3, 2, 1]
 def noRemoveProg : List Instr :=
   prog.mapIdx (fun i x => if x.op == .removeReader then ⟨.jump (i + 1), none, none⟩ else x)
 
-def deadG : G := schedule oldProg [⟨1, none⟩] 64 [1] (G.init [(.hardDeath .osExit, false)])
-def staleG : G := schedule noRemoveProg [⟨1, none⟩, ⟨1, some 0⟩] 200 [1, 1] (G.init [(.ret 0, false), (.ret 1, false)])
+def deadG : G := schedule oldProg [⟨1, none, []⟩] 64 [1] (G.init [(.hardDeath .osExit, false)])
+def staleG : G := schedule noRemoveProg [⟨1, none, []⟩, ⟨1, some 0, []⟩] 200 [1, 1] (G.init [(.ret 0, false), (.ret 1, false)])
 
 /-- before the repair a normal run was fine … -/
 theorem unfixed_normal_ok : localCheck oldProg oldRank (.sendOk, false) = true ∧ localCheck oldProg oldRank (.sendErr, false) = true := by
@@ -1192,7 +1233,7 @@ theorem stale_reader_hang :
 def demoCs : List (Callee × Bool) :=
   [(.ret 0, false), (.raiseExc 1, false), (.hardDeath .osExit, false), (.ret 3, true), (.raiseBase 4, false), (.midSendDeath 5, true)]
 def demoG : G :=
-  schedule prog [⟨2, none⟩, ⟨1, none⟩, ⟨1, some 0⟩, ⟨0, none⟩, ⟨3, some 3⟩, ⟨0, none⟩] 400 [2, 1, 1, 0, 3, 0] (G.init demoCs)
+  schedule prog [⟨2, none, []⟩, ⟨1, none, []⟩, ⟨1, some 0, []⟩, ⟨0, none, []⟩, ⟨3, some 3, []⟩, ⟨0, none, []⟩] 400 [2, 1, 1, 0, 3, 0] (G.init demoCs)
 
 /-- `GRun prog (G.init demoCs) demoG` holds, all six have finished, with the outcomes the specification names -/
 example : GRun prog (G.init demoCs) demoG := schedule_run _ _ _ _ _
@@ -1202,7 +1243,7 @@ example : demoG.tbl = [] ∧ demoG.invs.all (fun l => l.st.released && l.rx.isNo
 /-- the guard of `other_tasks_run_partial` is met by these states -/
 example : promptExit demoG = true := by decide +kernel
 /-- a state in the middle of a run: three invocations pending, three selector entries at three different fd numbers -/
-def midG : G := loopPhase prog [⟨1, none⟩, ⟨1, none⟩, ⟨1, none⟩] (G.init [(.ret 0, false), (.ret 1, false), (.unpicklable, false)])
+def midG : G := loopPhase prog [⟨1, none, []⟩, ⟨1, none, []⟩, ⟨1, none, []⟩] (G.init [(.ret 0, false), (.ret 1, false), (.unpicklable, false)])
 example : GRun prog (G.init [(.ret 0, false), (.ret 1, false), (.unpicklable, false)]) midG := loopPhase_run _ _ _
 example : midG.tbl.map (fun e => (e.fd, e.owner)) = [(2, 2), (1, 1), (0, 0)] ∧ midG.invs.all (fun l => l.st.parked) = true := by
   decide +kernel
